@@ -184,6 +184,20 @@ def main(tier=None):
                 name = 'ONE-v%d-x%d-np%d' % (ver, xt, np)
                 c, ctx = build_case(name, raw, f, data, np, chunk)
                 jobs.append((name, c, ctx, f, data))
+    # (1c) one open hint at a time (the result may not depend on any of them): each name-table size alone, smaller and larger than the others'
+    # default, all together, buffer size, byte swapping, aggregation, alignment hints (meaningless for reading), collective header read
+    OPEN_HINTS = ['nc_hash_size_var=16', 'nc_hash_size_var=1', 'nc_hash_size_var=2048', 'nc_hash_size_dim=1', 'nc_hash_size_dim=16', 'nc_hash_size_dim=1024',
+                  'nc_hash_size_gattr=1', 'nc_hash_size_vattr=1', 'nc_hash_size_gattr=64;nc_hash_size_vattr=2', 'nc_hash_size_dim=2;nc_hash_size_var=3;nc_hash_size_gattr=1;nc_hash_size_vattr=1',
+                  'nc_header_read_chunk_size=64', 'nc_ibuf_size=1', 'nc_in_place_swap=enable', 'nc_num_aggrs_per_node=1', 'nc_header_align_size=1000;nc_var_align_size=512;nc_record_align_size=64',
+                  'romio_no_indep_rw=true', 'pnetcdf_subfiling=enable;nc_num_subfiles=2']
+    for ver in (1, 2, 5):
+        for kind in (['fixed', 'record2'] if not thorough else kinds):
+            label, raw, f, data = next(iter(variants(ver, kind, None, quick=True)))
+            for hi, h in enumerate(OPEN_HINTS):
+                for np in ((1, 2) if thorough else ((1,) if (hi + ver) % 2 else (2,))):
+                    name = 'HINT-v%d-%s-h%d-np%d' % (ver, kind, hi, np)
+                    c, ctx = build_case(name, raw, f, data, np, None, h, 0)
+                    jobs.append((name, c, ctx, f, data))
     for ver in (1, 2, 5):
         f = mkfile_schema(ver, 'manydims'); cdf.layout(f); data = gen_data(f); raw = cdf.encode(f, data)
         for np, chunk in ((1, None), (2, 64)):
@@ -216,7 +230,7 @@ def main(tier=None):
         judge(ck, name, c, ctx, r, f, data)
     ck.cov['distinct_nontrivial'] = len(set(j[1].ops[1] for j in jobs))
     ck.cov['rule'] = ('files produced by the independent encoder: 4 schemas x 3 formats x layout freedoms {gaps before/between variables, gap before the record section, vsize correct/0/stale/all-ones, '
-                      'ABSENT vs tag+0 empty lists, non-zero bytes in free space} x {np, header chunk size via hook, collective header read, safe mode}; a file with exactly one record variable for every external type of each format; a file whose variables have 17, 30, 20 and 18 dimensions; every variable is read whole, record by record and at its last element; every header token placed at every 4-byte offset '
+                      'ABSENT vs tag+0 empty lists, non-zero bytes in free space} x {np, header chunk size via hook, collective header read, safe mode}; one open hint at a time (17 hint strings incl. each name-table size alone); a file with exactly one record variable for every external type of each format; a file whose variables have 17, 30, 20 and 18 dimensions; every variable is read whole, record by record and at its last element; every header token placed at every 4-byte offset '
                       'relative to a chunk end for chunk sizes %s (filler attribute sweep) and around the real 256 KiB boundary; distinct_nontrivial = distinct input files' % chunks)
     ck.sample(jobs[0][1].text()[:1200]); ck.sample(jobs[len(jobs) // 2][1].text()[:1200])
     ck.assumptions += ['begins increasing in definition order within each section (as the property states)', 'hook PNETCDF_VERIF_HDR_CHUNK stands in for the hint nc_header_read_chunk_size, which the library parses but never stores']
